@@ -5,6 +5,7 @@
 import Mathlib.Tactic.Linarith
 import Mathlib.Tactic.NormNum
 import Cvss.Lemmas.Num
+import Cvss.Lemmas.Str
 import Cvss.Lemmas.V2
 import Cvss.Model.V4
 import Cvss.Spec.V4
@@ -514,10 +515,103 @@ theorem lookup_map_iff {α α' β β' : Type} [DecidableEq α] [DecidableEq α']
 def keyDigits (k : Str) : List Nat := k.map (fun c => c.toNat - 48)
 def toList6 (k : Key) : List Nat := [k.1, k.2.1, k.2.2.1, k.2.2.2.1, k.2.2.2.2.1, k.2.2.2.2.2]
 
+/-! #### order-insensitive pinning of the generated table
+
+  The generated table lists its rows in the order of the Python dict literal.  That order is
+  unobservable (look-ups are by key), so the pin must not depend on it: the keys are distinct and the
+  rows are a PERMUTATION of the specification's rows.  It is established from three Boolean checks
+  whose cost does not depend on the order of the rows either (distinct keys; every generated row is
+  the specification's row for its key, read through the chunked table; the specification has no
+  more rows than the library). -/
+
+/-- Boolean duplicate check (cheap for the kernel) -/
+def nodupB {α : Type} [DecidableEq α] : List α → Bool
+  | [] => true
+  | a :: l => l.all (fun b => !decide (a = b)) && nodupB l
+
+theorem nodup_of_nodupB {α : Type} [DecidableEq α] : ∀ {l : List α}, nodupB l = true → l.Nodup
+  | [], _ => List.nodup_nil
+  | a :: l, h => by
+    simp only [nodupB, Bool.and_eq_true, List.all_eq_true, Bool.not_eq_true',
+      decide_eq_false_iff_not] at h
+    exact List.nodup_cons.2 ⟨fun hm => h.1 a hm rfl, nodup_of_nodupB h.2⟩
+
+/-- a duplicate-free list contained in a list that is not longer is a permutation of it -/
+theorem perm_of_subset {α : Type} {l₁ l₂ : List α} (hn : l₁.Nodup) (hs : l₁ ⊆ l₂)
+    (hl : l₂.length ≤ l₁.length) : l₁.Perm l₂ :=
+  (List.subperm_of_subset hn hs).perm_of_length_le hl
+
+/-- the library's rows / the specification's rows, both keyed by the list of the six digits -/
+abbrev genRows (T : List (Str × Rat)) : List (List Nat × Rat) :=
+  T.map (fun p => (keyDigits p.1, id p.2))
+abbrev specRows : List (List Nat × Rat) :=
+  Spec.V4.tableTenths.map (fun p => (toList6 p.1, (fun t : Nat => (t : Rat) / 10) p.2))
+
+/-- a digit list as one number, so that the duplicate check compares numbers (no injectivity is needed:
+    distinct images imply distinct keys for any function) -/
+def encDigits (d : List Nat) : Nat := d.foldl (fun n x => 10 * n + x) 0
+
+def toKey? : List Nat → Option Key
+  | [a, b, c, d, e, f] => some (a, b, c, d, e, f)
+  | _ => none
+
+theorem toKey?_some {d : List Nat} {k : Key} (h : toKey? d = some k) : d = toList6 k := by
+  unfold toKey? at h
+  split at h
+  · cases h; rfl
+  · cases h
+
+/-- the row is the specification's row for its key (found through the chunked table) -/
+def rowOK (p : Str × Rat) : Bool :=
+  match toKey? (keyDigits p.1) with
+  | some k =>
+    match fastLookup k with
+    | some t => decide (p.2 = (t : Rat) / 10)
+    | none => false
+  | none => false
+
+/-- from the three order-independent checks to "distinct keys, same rows up to order"; generic in the
+    table so that it can be replayed on any re-ordering of the generated table -/
+theorem pinned_of_checks (T : List (Str × Rat))
+    (h1 : nodupB (T.map fun p => encDigits (keyDigits p.1)) = true)
+    (h2 : T.all rowOK = true) (h3 : Spec.V4.tableTenths.length ≤ T.length) :
+    (keys (genRows T)).Nodup ∧ (genRows T).Perm specRows := by
+  have hk : (keys (genRows T)).Nodup := by
+    have h := nodup_of_nodupB h1
+    have e : T.map (fun p => encDigits (keyDigits p.1)) = (keys (genRows T)).map encDigits := by
+      simp [keys, genRows, List.map_map, Function.comp_def]
+    rw [e] at h
+    exact List.Nodup.of_map _ h
+  have hk' : ((genRows T).map (fun q => q.1)).Nodup := hk
+  refine ⟨hk, perm_of_subset (List.Nodup.of_map _ hk') ?_ (by simpa [genRows, specRows] using h3)⟩
+  intro q hq
+  obtain ⟨p, hp, rfl⟩ := List.mem_map.1 hq
+  have hr := List.all_eq_true.1 h2 p hp
+  unfold rowOK at hr
+  split at hr
+  · rename_i k hk'
+    split at hr
+    · rename_i t ht
+      have hv : p.2 = (t : Rat) / 10 := of_decide_eq_true hr
+      have hm : (k, t) ∈ Spec.V4.tableTenths :=
+        Cvss.Lemmas.V2.lookup_mem (by rw [lookup_table]; exact ht)
+      exact List.mem_map.2 ⟨(k, t), hm, by simp [toKey?_some hk', hv]⟩
+    · cases hr
+  · cases hr
+
+/-- pinning (order-insensitive): no key of `CVSS_LOOKUP_GLOBAL` occurs twice, and its rows are the
+    specification's rows up to the order of the entries -/
 theorem table_pinned :
-    Gen.V4.lookupTable.map (fun p => (keyDigits p.1, id p.2)) =
-      Spec.V4.tableTenths.map (fun p => (toList6 p.1, (fun t : Nat => (t : Rat) / 10) p.2)) := by
-  decide +kernel
+    (keys (Gen.V4.lookupTable.map (fun p => (keyDigits p.1, id p.2)))).Nodup ∧
+    (Gen.V4.lookupTable.map (fun p => (keyDigits p.1, id p.2))).Perm
+      (Spec.V4.tableTenths.map (fun p => (toList6 p.1, (fun t : Nat => (t : Rat) / 10) p.2))) :=
+  pinned_of_checks Gen.V4.lookupTable (by decide +kernel) (by decide +kernel) (by decide +kernel)
+
+/-- … hence the same look-up results, key by key -/
+theorem table_lookup_eq (k : List Nat) :
+    lookup k (Gen.V4.lookupTable.map (fun p => (keyDigits p.1, id p.2))) =
+      lookup k (Spec.V4.tableTenths.map (fun p => (toList6 p.1, (fun t : Nat => (t : Rat) / 10) p.2))) :=
+  lookup_perm _ _ table_pinned.2 table_pinned.1 k
 
 theorem keys_roundtrip :
     (Gen.V4.lookupTable.all fun p => Model.V4.mvKey (keyDigits p.1) == p.1) = true := by decide +kernel
@@ -554,7 +648,7 @@ theorem lookupScore_eq (e1 e2 e3 e4 e5 e6 : Nat) (h1 : e1 < 10) (h2 : e2 < 10) (
       obtain ⟨⟨a, b, c, d, e, f⟩, t⟩ := p
       simp [toList6])
   unfold Model.V4.lookupScore Spec.V4.score?
-  rw [table_pinned, hB] at hA
+  rw [table_lookup_eq, hB] at hA
   have hA' : lookup (Model.V4.mvKey [e1, e2, e3, e4, e5, e6]) Gen.V4.lookupTable =
       Option.map (fun t : Nat => (t : Rat) / 10) (lookup (e1, e2, e3, e4, e5, e6) Spec.V4.tableTenths) := by
     rw [hA]; cases lookup (Model.V4.mvKey [e1, e2, e3, e4, e5, e6]) Gen.V4.lookupTable <;> rfl
